@@ -1,4 +1,5 @@
 import Pamqp.Spec.Defs
+import Pamqp.Proofs.Envelope
 /-!
 # C07 — incomplete frames are reported as UnmarshalingException, never as a frame
 -/
@@ -11,7 +12,7 @@ consumed count, no other exception class -/
 theorem C07_prefix_rejected (legacy : Bool) (cat : Cat) (f : AnyFrame) (ch : PyVal) (bs : Bytes)
     (h : Frame.marshal legacy cat f ch = .ok bs) (k : Nat) (hk : k < bs.length) :
     Frame.unmarshal cat (bs.take k) = .error .unmarshaling := by
-  sorry
+  exact Proofs.unmarshal_prefix_rejected legacy cat f ch bs h k hk
 
 /-- the hypothesis is satisfiable: a heartbeat is 8 bytes (its 7-byte prefix was accepted before D1) -/
 example : Frame.marshal false ⟨[], [], 60⟩ .heartbeat (.int 0) = .ok [8, 0, 0, 0, 0, 0, 0, 206] := rfl
